@@ -526,7 +526,55 @@ Section Refine.
       unfold tag. rewrite obind_omap.
       destruct (tr_oneof orc e (S (jsize (JObj ms))) 0 props ms [] [] [] None); reflexivity.
   Qed.
+
+  (* ... and what it leaves is exactly what followed the document *)
+  Theorem decode_tokens_rest_tree root j rest :
+    decode_tokens_rest orc e me (S (length (tokens_of j ++ rest))) root (tokens_of j ++ rest) =
+    omap (fun m => (m, rest)) (tr_decode orc e (S (jsize j)) root j).
+  Proof.
+    unfold decode_tokens_rest, tr_decode, omap.
+    destruct (refines_all (S (jsize j))) as (_ & Ro & Rn & _).
+    destruct (lookup e root) as [[props|props|]|]; try reflexivity.
+    - destruct j as [| | | | |ms]; try reflexivity.
+      rewrite tokens_of_obj. cbn [app]. rewrite !app_cons_assoc. cbn [expect token_eqb obind length].
+      rewrite Ro; [| rewrite jsize_obj; lia | lia].
+      unfold tag. rewrite obind_omap.
+      destruct (tr_object orc e (S (jsize (JObj ms))) 0 props ms [] []); reflexivity.
+    - destruct j as [| | | | |ms]; try reflexivity.
+      rewrite tokens_of_obj. cbn [app]. rewrite !app_cons_assoc. cbn [expect token_eqb obind length].
+      rewrite Rn; [| rewrite jsize_obj; lia | lia].
+      unfold tag. rewrite obind_omap.
+      destruct (tr_oneof orc e (S (jsize (JObj ms))) 0 props ms [] [] [] None); reflexivity.
+  Qed.
 End Refine.
+
+(* the whole call JSONToProto (descent + end-of-input check) on a text that the tokenizer reads as the
+   tree j followed by [rest]: the tree reading when nothing follows and the input ends there, an error
+   otherwise (never a partial acceptance) *)
+Theorem decode_document_tree orc e root bs j rest me :
+  lex bs = (tokens_of j ++ rest, me) ->
+  decode_document orc e root bs =
+  obind (tr_decode orc e (S (jsize j)) root j) (fun m =>
+    obind (end_of_input rest (lex_at_eof bs)) (fun _ => Ok m)).
+Proof.
+  intros H. unfold decode_document. rewrite H. rewrite decode_tokens_rest_tree. unfold omap.
+  destruct (tr_decode orc e (S (jsize j)) root j); reflexivity.
+Qed.
+
+Corollary decode_document_tree_clean orc e root bs j me :
+  lex bs = (tokens_of j, me) -> lex_at_eof bs = true ->
+  decode_document orc e root bs = tr_decode orc e (S (jsize j)) root j.
+Proof.
+  intros H He. rewrite (decode_document_tree orc e root bs j [] me) by (rewrite app_nil_r; exact H).
+  rewrite He. destruct (tr_decode orc e (S (jsize j)) root j); reflexivity.
+Qed.
+
+Corollary decode_document_tree_trailing orc e root bs j t rest me :
+  lex bs = (tokens_of j ++ t :: rest, me) -> is_ok (decode_document orc e root bs) = false.
+Proof.
+  intros H. rewrite (decode_document_tree orc e root bs j (t :: rest) me H).
+  destruct (tr_decode orc e (S (jsize j)) root j); reflexivity.
+Qed.
 
 (* byte level: when the tokenizer reads the document as the tree j (whatever follows it), JSONToProto
    computes the tree reading of j *)
